@@ -19,11 +19,13 @@ type duplex struct {
 	mu   sync.Mutex
 	cond *sync.Cond
 	live bool
+	mute bool          // stop recording units / delivered bytes (long-lived stream connections)
 	dir  [2]*direction // dir[i] carries what party i writes
 }
 
 type direction struct {
 	buf        []byte   // delivered, not yet read
+	base       []byte   // backing array of buf when it was last empty
 	units      [][]byte // genuine units in write order
 	delivered  []byte   // everything handed to the reader so far (after tampering)
 	writerDone bool     // the writing party will not write any more in this phase
@@ -63,6 +65,9 @@ func (e *endpoint) Read(p []byte) (int, error) {
 	}
 	n := copy(p, in.buf)
 	in.buf = in.buf[n:]
+	if len(in.buf) == 0 && in.base != nil {
+		in.buf = in.base[:0] // reuse the backing array
+	}
 	return n, nil
 }
 
@@ -74,6 +79,13 @@ func (e *endpoint) Write(p []byte) (int, error) {
 		return 0, io.ErrClosedPipe
 	}
 	out := d.dir[e.me]
+	if d.mute && out.mitm == nil {
+		out.buf = append(out.buf, p...)
+		if len(out.buf) == len(p) {
+			out.base = out.buf
+		}
+		return len(p), nil
+	}
 	idx := len(out.units)
 	unit := append([]byte(nil), p...)
 	out.units = append(out.units, unit)
